@@ -92,14 +92,15 @@ func (s *Store) Store(ctx context.Context, record *workflow.Record) error {
 	s.mu.Lock()
 	defer s.mu.Unlock()
 
-	// Add record to store
-	uk := uniqueKey(record.WorkflowName, record.ForeignID)
-	s.keyIndex[uk] = record
-
+	// Build the outbox event first: when that fails nothing may have been touched, Store is all or nothing.
 	eventData, err := workflow.MakeOutboxEventData(*record)
 	if err != nil {
 		return err
 	}
+
+	// Add record to store
+	uk := uniqueKey(record.WorkflowName, record.ForeignID)
+	s.keyIndex[uk] = record
 
 	_, previouslyExisted := s.store[record.RunID]
 	if !previouslyExisted {
